@@ -27,3 +27,4 @@ EQUIVALENT = [
     ('handler bare', M, "            except Exception as e:\n                logger.warning(\"Error when reading %s: %s.\", filename.name, str(e))\n                continue", "            except Exception:\n                logger.warning(\"Error when reading %s.\", filename.name)\n                continue"),
     ('save via str path', M, "        np.save(path, spike_clusters)\n", "        np.save(str(path), spike_clusters)\n"),
 ]
+BREAKING.append(('cluster file created as a hard link', 'phylib/io/model.py', "            shutil.copy(tmp_path, path)", "            os.link(str(tmp_path), str(path))", ['C10.F2']))
